@@ -286,8 +286,9 @@ def welford_roles(prog, W):
         for g in ("get", "__call__"):
             if prog.find_method(W, g)[1] is not None:
                 r = prog.summarise(W, g).ret
-                if r[0] == "field0":
-                    mean = r[1]
+                read = sorted({t[1] for t in ir.subterms(r) if t[0] == "field0"})
+                if len(read) == 1:
+                    mean = read[0]      # the one field the reported value is computed from
                     break
         counters = [f for f, t in upd.fields.items() if t == ("op", "+", ("field0", f), ("const", 1))]
         moved = [f for f, t in upd.fields.items() if v in ir.subterms(t)]
